@@ -1249,6 +1249,9 @@ class MindsDBParser(Parser):
        'from_table')
     def from_table_aliased(self, p):
         entity = p.from_table
+        if entity.alias is not None and (hasattr(p, 'identifier') or hasattr(p, 'dquote_string')):
+            # (SELECT ...) AS t u: the sub-query has its alias already
+            raise ParsingException(f'Table {str(entity.alias)} can have only one alias')
         if hasattr(p, 'identifier'):
             entity.alias = p.identifier
         if hasattr(p, 'dquote_string'):
